@@ -581,6 +581,10 @@ func writeEvidence(id, tier string, seed int, results []*EntryResult, h *Harness
 	dir := filepath.Join(verifDir(), "evidence")
 	os.MkdirAll(dir, 0o755)
 	writeJSON(filepath.Join(dir, id+".json"), ev)
+	// per-tier copy (the main file is rewritten by whichever tier ran last)
+	tdir := filepath.Join(verifDir(), "evidence_tiers", tier)
+	os.MkdirAll(tdir, 0o755)
+	writeJSON(filepath.Join(tdir, id+".json"), ev)
 }
 
 // cmdSelftest validates the translator: sample models of completed paths are
